@@ -1,2 +1,76 @@
+use crate::vj;
+use libhaystack::val::*;
 use serde_json::{json, Value as J};
-pub fn run(api: &str, _case: &J) -> J { json!({"bad_api": api}) }
+
+/// canonical description of a JSON tree (keeps integer/float distinction and member order)
+pub fn tj(v: &J) -> J {
+    match v {
+        J::Null => J::Null,
+        J::Bool(b) => json!(b),
+        J::Number(n) => {
+            if let Some(i) = n.as_i64() { if i < 0 { return json!({"$n": "i", "v": i.to_string()}); } }
+            if let Some(u) = n.as_u64() { return json!({"$n": "u", "v": u.to_string()}); }
+            json!({"$n": "f", "v": format!("{:016x}", n.as_f64().unwrap().to_bits())})
+        }
+        J::String(s) => json!({"$s": vj::hex(s.as_bytes())}),
+        J::Array(a) => J::Array(a.iter().map(tj).collect()),
+        J::Object(o) => json!({"$m": o.iter().map(|(k, v)| json!([vj::hex(k.as_bytes()), tj(v)])).collect::<Vec<_>>()}),
+    }
+}
+
+/// JSON text from a canonical tree description (member order as given)
+pub fn untj(t: &J, out: &mut String) {
+    match t {
+        J::Null => out.push_str("null"),
+        J::Bool(b) => out.push_str(if *b { "true" } else { "false" }),
+        J::Array(a) => { out.push('['); for (i, x) in a.iter().enumerate() { if i > 0 { out.push(','); } untj(x, out); } out.push(']'); }
+        J::Object(o) => {
+            if let Some(s) = o.get("$s") { out.push_str(&serde_json::to_string(&vj::uhs(s)).unwrap()); }
+            else if let Some(k) = o.get("$n") {
+                let v = o["v"].as_str().unwrap();
+                match k.as_str().unwrap() {
+                    "f" => { let x = f64::from_bits(u64::from_str_radix(v, 16).unwrap()); out.push_str(&serde_json::to_string(&x).unwrap()); }
+                    "t" => out.push_str(v),         // literal number text (spelling variants)
+                    _ => out.push_str(v),
+                }
+            } else {
+                out.push('{');
+                for (i, kv) in o["$m"].as_array().unwrap().iter().enumerate() {
+                    if i > 0 { out.push(','); }
+                    out.push_str(&serde_json::to_string(&vj::uhs(&kv[0])).unwrap()); out.push(':'); untj(&kv[1], out);
+                }
+                out.push('}');
+            }
+        }
+        _ => out.push_str("null"),
+    }
+}
+
+pub fn run(api: &str, case: &J) -> J {
+    match api {
+        "json_encode" => {
+            let v = vj::from(&case["v"]);
+            match serde_json::to_value(&v) {
+                Ok(t) => {
+                    let text = serde_json::to_string(&v).unwrap_or_default();
+                    json!({"ok": tj(&t), "text": vj::hex(text.as_bytes())})
+                }
+                Err(e) => json!({"err": e.to_string()}),
+            }
+        }
+        "json_decode" => {
+            let mut text = String::new();
+            if case["text"].is_null() { untj(&case["tree"], &mut text); } else { text = String::from_utf8(vj::unhex(case["text"].as_str().unwrap())).unwrap_or_default(); }
+            match serde_json::from_str::<Value>(&text) { Ok(v) => json!({"ok": vj::to(&v), "text": vj::hex(text.as_bytes())}), Err(e) => json!({"err": e.to_string(), "text": vj::hex(text.as_bytes())}) }
+        }
+        "json_roundtrip" => {
+            let v = vj::from(&case["v"]);
+            let text = match serde_json::to_string(&v) { Ok(t) => t, Err(e) => return json!({"enc_err": e.to_string()}) };
+            match serde_json::from_str::<Value>(&text) {
+                Ok(v2) => json!({"ok": vj::to(&v2), "text": vj::hex(text.as_bytes()), "same": vj::to(&v2) == vj::to(&v)}),
+                Err(e) => json!({"err": e.to_string(), "text": vj::hex(text.as_bytes())}),
+            }
+        }
+        other => crate::apis10::run(other, case),
+    }
+}
